@@ -384,6 +384,7 @@ def suite_mc_matrix(ctx, can_run_model):
     for j in range(n):
         feat = gen_mc.gen_features(rng)
         feat["clock"] = False          # clock-reading programs are known finding F14 (separate stream)
+        feat["stateless"] = False      # for stateless processes the counters are not functions of the compared state
         base = gen_mc.gen_base(rng, feat)
         feat_count(ctx, base["feat"])
         dp = rng.choice([4, 5, 6])     # one depth bound for all six variants, so that they explore the same graph
@@ -441,6 +442,7 @@ def suite_mc_matrix_sb(ctx, can_run_model):
     for j in range(n):
         feat = gen_mc.gen_features(rng)
         feat["clock"] = False
+        feat["stateless"] = False
         base = gen_mc.gen_base(rng, feat)
         g = {}
         for st in ("BFS", "DFS"):
